@@ -67,8 +67,10 @@ class SymPath:
     def starts(self):
         return [0] + sorted(self.heads - {0})
 
-    def paths(self, start, goal_bb):
-        """All block paths start..goal_bb that do not pass through a loop head or the start again."""
+    def paths(self, start, goal_bb, through_heads=False, avoid=()):
+        """All simple block paths start..goal_bb. By default they do not pass through a loop head (the caller starts a
+        separate evaluation there with symbolic cells); through_heads=True allows it (each block still at most once),
+        `avoid` blocks are never entered."""
         b = self.b
         out = []
         stack = [(start, (start,))]
@@ -78,9 +80,10 @@ class SymPath:
                 out.append(path)
                 if len(out) > self.max_paths:
                     raise CheckBroken('sympath: more than %d paths in %s' % (self.max_paths, b.key))
-                # a goal block may also be passed through, keep going only if it is not terminal
+                if len(path) > 1:
+                    continue
             for s in b.succs(bb):
-                if s in path or (s in self.heads and s != goal_bb) or b.is_cleanup(s):
+                if s in path or (not through_heads and s in self.heads and s != goal_bb) or b.is_cleanup(s) or s in avoid:
                     continue
                 if s == goal_bb and s in self.heads and s in path:
                     continue
@@ -113,6 +116,8 @@ class SymPath:
         k = t['t']
         if k == 'call':
             args = tuple(self.operand(st, a) for a in t['args'])
+            # a shared reference handed to a call carries a snapshot of what it points to (so that len(&s) can be tied to s)
+            args = tuple(('ref', a[1], a[2], self.read_key(st, a[1])) if a[0] == 'ref' and not a[2] and len(a) == 3 else a for a in args)
             for a in args:
                 self.havoc_through(st, a)
             name = callee_res(t)
